@@ -13,7 +13,7 @@ from ..engine import flow, cfg as cfgmod
 from ..engine import pattern as P
 from ..engine.facts import ancestors, dotted, const, src, walk_func, enclosing_stmt
 from . import skeletons as sk
-from .common import calls, contains, pn, access_paths, assigned_from, branch_paths, resolve, resolve_deep
+from .common import calls, contains, pn, access_paths, assigned_from, branch_paths, resolve, resolve_deep, guards_of
 from .common import _fold_not as _fold
 
 
@@ -160,7 +160,18 @@ def getattr_order(ctx):
                 okb = any(P.has(fn, "functools.partial($c, self.context)") for _ in [0]) and ov is not None and "partial" in src(ov)
             ctx.check(okb, "binds-context:" + q.split(".")[1], db.where(fn), "own members are not bound to the namespace's context", "partial(callable, self.context)")
     na = db.func("runtime._NSAttr.__getattr__")
-    ctx.check(P.has(na, "while $ns:\n    if hasattr($ns.module, $k):\n        return getattr($ns.module, $k)\n    else:\n        $ns = $ns.inherits\nraise AttributeError($k)") or P.has(na, "while $ns:\n    if hasattr($ns.module, $k):\n        return getattr($ns.module, $k)\n    $ns = $ns.inherits\nraise AttributeError($k)"), "attr-walk", db.where(na), "_NSAttr does not walk module attributes along inherits", "own module attribute, else along inherits, else AttributeError")
+    okw = P.has(na, "while $ns:\n    if hasattr($ns.module, $k):\n        return getattr($ns.module, $k)\n    else:\n        $ns = $ns.inherits\nraise AttributeError($k)") or P.has(na, "while $ns:\n    if hasattr($ns.module, $k):\n        return getattr($ns.module, $k)\n    $ns = $ns.inherits\nraise AttributeError($k)")
+    if not okw:
+        # the module read into a local first
+        kp_ = pn(na, 1)
+        for lp_ in [w_ for w_ in walk_func(na) if isinstance(w_, ast.While) and isinstance(w_.test, ast.Name)]:
+            nsv = lp_.test.id
+            rets_ = [r_ for r_ in ast.walk(lp_) if isinstance(r_, ast.Return) and r_.value is not None]
+            step = any(P.matches(s_, "%s = %s.inherits" % (nsv, nsv)) for s_ in lp_.body)
+            good = bool(rets_) and all(P.matches(resolve_deep(na, r_.value, 1), "getattr(%s.module, %s)" % (nsv, kp_)) and any(P.matches(resolve_deep(na, ast.parse(t_, mode="eval").body, 1), "hasattr(%s.module, %s)" % (nsv, kp_)) and v_ for t_, v_ in guards_of(r_, lp_)) for r_ in rets_)
+            tail = [s_ for s_ in na.body if isinstance(s_, ast.Raise)]
+            okw = step and good and bool(tail) and "AttributeError" in src(tail[-1])
+    ctx.check(okw, "attr-walk", db.where(na), "_NSAttr does not walk module attributes along inherits", "own module attribute, else along inherits, else AttributeError")
 
 
 @rule("C06.wiring", min_instances=7, props=["C17"])
